@@ -243,16 +243,22 @@ func c10(r *Run) {
 			st := w.NamedType("FDOperator").Underlying().(*types.Struct)
 			for i := 0; i < st.NumFields(); i++ {
 				f := st.Field(i)
-				if _, isFunc := f.Type().Underlying().(*types.Signature); !isFunc {
+				_, isFunc := f.Type().Underlying().(*types.Signature)
+				// besides the callbacks: the owner's poller, descriptor and the detach once-guard (which must be re-armed for the next owner)
+				if !isFunc && f.Name() != "poll" && f.Name() != "detached" && f.Name() != "FD" {
 					continue
 				}
 				cleared := false
 				forEachIns(ro.opReset, func(ins ssa.Instruction) {
-					if stt, ok := ins.(*ssa.Store); ok && isStoreToField(ins, "FDOperator", f.Name()) && isNilConst(stt.Val) {
-						cleared = true
+					if stt, ok := ins.(*ssa.Store); ok && isStoreToField(ins, "FDOperator", f.Name()) {
+						if isNilConst(stt.Val) {
+							cleared = true
+						} else if k, okc := constInt(stt.Val); okc && k == 0 {
+							cleared = true
+						}
 					}
 				})
-				r.ob("C10.R3:reset-clears:"+f.Name(), "reset() clears every callback of the slot: the next owner installs only the callbacks it uses, and the poller invokes whichever callbacks it finds", ro.opReset, nil, cleared, "op."+f.Name()+" = nil", false)
+				r.ob("C10.R3:reset-clears:"+f.Name(), "reset() clears every callback of the slot, its poller, its descriptor and its detach once-guard: the next owner installs only the callbacks it uses, the poller invokes whichever callbacks it finds, and a guard left at 1 would swallow the next owner's detach", ro.opReset, nil, cleared, "op."+f.Name()+" = zero value", false)
 			}
 		}
 		// who calls freeable: Poll.Free only; who calls unused/reset
